@@ -196,6 +196,129 @@ def _guard_edges_in(f, succ, target, avoid=()):
     return out
 
 
+def _flag_threaded(f, succ, ge, depth=0):
+    """Jump threading over flag variables: a guard edge whose branch tests a phi of constants (`int inside = 1; ... inside = 0; ... if
+    (inside)`) is taken exactly when the phi block was last entered from a predecessor whose constant selects that side; what every path
+    to each of those predecessors must pass (and the edge out of it) therefore also guards the target.  Returns ge plus those edges."""
+    if depth > 2 or ge is None:
+        return ge
+    out = set(ge)
+    for (b, s) in ge:
+        t = f.blocks[b].term
+        if t.op != 'br' or not t.a:
+            continue
+        c, pred, ops = f.cond(t.a[0])
+        phi = None; K = 0
+        if c is not None and c.op == 'phi' and pred in ('is', 'not'):
+            phi = c; K = 0; pred = 'ne' if pred == 'is' else 'eq'
+        elif c is not None and c.op == 'icmp' and pred in ('eq', 'ne') and len(ops) == 2:
+            for i_ in (0, 1):
+                y = f.v(f.strip_casts(ops[i_])) if ops[i_][0] == 'v' else None
+                if y is not None and y.op == 'phi' and ops[1 - i_][0] == 'c':
+                    phi = y; K = int(ops[1 - i_][1])
+        if phi is None:
+            continue
+        # leaves: (constant, predecessor, phi block) where each constant enters the flag, through nested phis
+        leaves = []; ok = True; seen_ = set(); work = [phi]
+        while work and ok:
+            q = work.pop()
+            if q.i in seen_:
+                continue
+            seen_.add(q.i)
+            for a, bb in zip(q.a, q.d['bb']):
+                y = f.v(a) if a[0] == 'v' else None
+                if a[0] == 'c':
+                    leaves.append((int(a[1]), bb, q.bb.id))
+                elif y is not None and y.op == 'phi':
+                    work.append(y)
+                else:
+                    ok = False
+        if not ok or not leaves:
+            continue
+        sel = []
+        for cv, bb, pb in leaves:
+            truth = (cv != K) if pred == 'ne' else (cv == K)
+            if (t.d['succ'][0] if truth else t.d['succ'][1]) == s:
+                sel.append((bb, pb))
+        common = None
+        for bb, pb in sel:
+            if pb not in succ.get(bb, ()):
+                continue
+            g = _guard_edges_in(f, succ, bb)
+            if g is None:
+                continue            # that predecessor is unreachable under this specialisation
+            g = set(_flag_threaded(f, succ, g, depth + 1))
+            if len(set(succ[bb])) >= 2:
+                g.add((bb, pb))
+            common = g if common is None else (common & g)
+        if common:
+            out |= common
+    return out
+
+
+def cond_facts(f, succ, o, truth, depth=0):
+    """comparisons implied by the boolean value o being `truth`: {(icmp id, bool)}.  Peels casts, llvm.expect, logical negation and
+    == 0 / != 0 of a boolean; a short-circuit phi (`a && b`: phi [false, A], [b, B]) contributes, for each incoming edge that can deliver
+    that truth value, what holds on every path to that predecessor plus the incoming value itself - intersected over those edges."""
+    for _ in range(16):
+        if o[0] != 'v':
+            return set()
+        x = f.by_id[o[1]]
+        if x.op in ('zext', 'sext', 'trunc', 'freeze'):
+            o = x.a[0]; continue
+        if x.op == 'call' and isinstance(x.callee, str) and x.callee.startswith('llvm.expect'):
+            o = x.a[0]; continue
+        if x.op == 'xor' and x.ty == 'i1' and any(a[0] == 'c' and int(a[1]) & 1 for a in x.a):
+            o = [a for a in x.a if a[0] != 'c'][0]; truth = not truth; continue
+        if x.op == 'icmp':
+            zero = [a for a in x.a if a[0] == 'c' and int(a[1]) == 0]
+            if x.pred in ('eq', 'ne') and zero:
+                other = [a for a in x.a if a is not zero[0]][0]
+                q = other
+                for _2 in range(8):
+                    y = f.v(q) if q[0] == 'v' else None
+                    if y is not None and (y.op in ('zext', 'sext', 'trunc', 'freeze') or (y.op == 'call' and isinstance(y.callee, str) and y.callee.startswith('llvm.expect'))):
+                        q = y.a[0]; continue
+                    break
+                y = f.v(q) if q[0] == 'v' else None
+                if y is not None and y.ty == 'i1':
+                    o = q; truth = truth if x.pred == 'ne' else not truth; continue
+            return {(x.i, truth)}
+        if x.op in ('and', 'or') and x.ty == 'i1':
+            if (x.op == 'and') == truth:
+                return cond_facts(f, succ, x.a[0], truth, depth + 1) | cond_facts(f, succ, x.a[1], truth, depth + 1)
+            return set()
+        if x.op == 'phi' and x.ty == 'i1' and depth <= 3:
+            common = None
+            for a, bb in zip(x.a, x.d['bb']):
+                if a[0] == 'c' and bool(int(a[1]) & 1) != truth:
+                    continue
+                if x.bb.id not in succ.get(bb, ()):
+                    continue
+                g = facts_at(f, succ, bb, depth + 1)
+                if g is None:
+                    continue
+                if a[0] != 'c':
+                    g = g | cond_facts(f, succ, a, truth, depth + 1)
+                common = g if common is None else (common & g)
+            return common or set()
+        return set()
+    return set()
+
+
+def facts_at(f, succ, target, depth=0):
+    """{(icmp id, truth)} that hold on every path from the entry to block `target` in the graph `succ` (None: unreachable)"""
+    ge = _guard_edges_in(f, succ, target)
+    if ge is None:
+        return None
+    out = set()
+    for b, s in ge:
+        t = f.blocks[b].term
+        if t.op == 'br' and t.a:
+            out |= cond_facts(f, succ, t.a[0], t.d['succ'][0] == s, depth)
+    return out
+
+
 def r4_repeat_typestate(ck, P):
     R = ck.rule('C04-R4', 'a coordinate that addresses pixels without a bounds check has passed repeat() with the matching dimension (or, for REPEAT_NONE, both bounds tests of its axis) on every path', floor=30)
     reps = find_repeat(P)
@@ -281,7 +404,7 @@ def r4_repeat_typestate(ck, P):
                             wrapped = False
                         if wrapped and reps_ok:
                             continue
-                        ge = _guard_edges_in(f, succ, x.bb.id)
+                        ge = _flag_threaded(f, succ, _guard_edges_in(f, succ, x.bb.id))
                         if ge is None:
                             continue            # the use is unreachable for this repeat mode
                         # REPEAT_NONE style: both bounds of this coordinate are established on every remaining path, either by
